@@ -15,6 +15,17 @@ Licensed under a 3-clause BSD style license.
 """
 
 
+def _promote_low_precision(values: NDArray) -> NDArray:
+    """
+    Return integer, boolean and half-precision arrays as float64 (other arrays unchanged), so that
+    limits and differences are never computed in a dtype that wraps around or overflows.
+    """
+    values = np.asarray(values)
+    if values.dtype.kind in "biu" or values.dtype == np.float16:
+        values = values.astype(np.float64)
+    return values
+
+
 class BaseInterval(ABC):
     """
     Base class for the interval classes, which when called with an array of values,
@@ -55,7 +66,10 @@ class BaseInterval(ABC):
         """
         vmin, vmax = self.get_limits(values)
 
-        # subtract vmin
+        # subtract vmin (in floating point: integer inputs would wrap around)
+        values = _promote_low_precision(values)
+        if values.dtype == np.float64:
+            vmin, vmax = float(vmin), float(vmax)
         values = np.subtract(values, vmin)
         if np.issubdtype(values.dtype, np.integer):
             values = values.astype(np.float64)
@@ -143,7 +157,7 @@ class CenteredInterval(BaseInterval):
         if self.half_range is not None:
             return self.vcenter - self.half_range, self.vcenter + self.half_range
 
-        values = np.asarray(values).ravel()
+        values = _promote_low_precision(values).ravel()
         values = values[np.isfinite(values)]
         vmin = np.min(values)
         vmax = np.max(values)
@@ -173,7 +187,7 @@ class QuantileInterval(BaseInterval):
 
     def get_limits(self, values: NDArray) -> tuple[float, float]:
         # Make sure values is a Numpy array
-        values = np.asarray(values).ravel()
+        values = _promote_low_precision(values).ravel()
 
         # Filter out invalid values (inf, nan)
         values = values[np.isfinite(values)]
